@@ -2,13 +2,23 @@
 import z3
 from aovc.check import num
 from aovc.contract import verify
-from aovc.values import zr, UF, PI
+from aovc.values import zr, zi, UF, PI
 from aovc import constfold
 
 TURB = "aotools/turbulence/turb.py"
 SC = "aotools/turbulence/slopecovariance.py"
 KL = "aotools/functions/karhunenLoeve.py"
 TOL = "0.001"
+
+
+def _entails(pr, f):
+    """path condition of the explored path entails f (z3, linear facts only; unknown counts as no)"""
+    sv = z3.Solver()
+    sv.set("timeout", 3000)
+    for a in pr.ctx.hyps():
+        sv.add(a)
+    sv.add(z3.Not(f))
+    return sv.check() == z3.unsat
 
 
 def obligations(chk):
@@ -32,7 +42,21 @@ def obligations(chk):
     def post_all(pr):
         res = pr.value
         goals = []
-        D, Dk, C, klD, klDk = (zr(res[k]) for k in ("D", "Dk", "C", "klD", "klDk"))
+        # the von Karman closed forms branch on `separation == 0`: under this path's condition (r > 0) the branch is decided
+        def resolve(t):
+            t = z3.simplify(t)
+            if z3.is_app(t) and t.decl().kind() == z3.Z3_OP_ITE:
+                c = t.arg(0)
+                if pr_valid(c):
+                    return resolve(t.arg(1))
+                if pr_valid(z3.Not(c)):
+                    return resolve(t.arg(2))
+                return t
+            if z3.is_app(t) and t.num_args():
+                return t.decl()(*[resolve(a) for a in t.children()])
+            return t
+        pr_valid = lambda f: z3.is_true(z3.simplify(f)) or _entails(pr, f)
+        D, Dk, C, klD, klDk = (resolve(zr(res[k])) for k in ("D", "Dk", "C", "klD", "klDk"))
         # opaque atoms: the Bessel factor, the (r/L0)^(5/6) factor, the (L0/r0)^(5/3) amplitude
         K = sympy.Symbol("K", positive=True)          # kv(5/6, 2 pi r / L0)
         rs, r0s, L0s = sympy.Symbol("r", positive=True), sympy.Symbol("r0", positive=True), sympy.Symbol("L0", positive=True)
@@ -96,3 +120,30 @@ def obligations(chk):
         return goals
     verify(chk, "closed-forms", SC + ":structure_function_vk,structure_function_kolmogorov;" + TURB + ":phase_covariance;" + KL + ":stf_vonKarman,stf_kolmogorov", run_all, post_all,
            clause="consistency", replay=lambda m: {}, encoding="symbolic execution to closed forms; coefficients compared exactly (sympy) or within tolerance by 40-digit enclosures (mpmath)", frame=False)
+
+    # elementwise: applied to an array of separations (any rank-2 shape, symmetric or not) each closed form returns, entry by entry, what the
+    # scalar call returns for that separation
+    n1, n2 = z3.Ints("n1 n2")
+    ia, ib = z3.Ints("ia ib")
+    for fname_, modp, extra in (("phase_covariance", TURB, lambda: [r0, L0]), ("structure_function_vk", SC, lambda: [r0, L0]), ("structure_function_kolmogorov", SC, lambda: [r0]),
+                                ("stf_vonKarman", KL, lambda: [L0]), ("stf_kolmogorov", KL, lambda: [])):
+        def run_el(it, fname_=fname_, modp=modp, extra=extra):
+            from aovc.arrays import sym_arr
+            it.ctx.assume(z3.And(n1 >= 1, n2 >= 1, r0 > 0, L0 > 0))
+            R = sym_arr("seps", [n1, n2], prov={"r"})
+            it.ctx.assume(zr(R.get([ia, ib])) > 0)
+            out = it.call_repo(modp, fname_, [R] + extra())
+            one = it.call_repo(modp, fname_, [R.get([ia, ib])] + extra())
+            return it, out, one
+
+        def post_el(pr):
+            from aovc.arrays import Arr
+            it, out, one = pr.value
+            ok = isinstance(out, Arr) and out.ndim == 2
+            goals = [("array in, array of the same rank out", z3.BoolVal(bool(ok)))]
+            if not ok:
+                return goals
+            goals.append(("shape preserved", z3.And(zi(out.shape[0]) == n1, zi(out.shape[1]) == n2)))
+            goals.append(("out[a, b] = f(separations[a, b])", z3.Implies(z3.And(ia >= 0, ia < n1, ib >= 0, ib < n2), zr(out.get([ia, ib])) == zr(one))))
+            return goals
+        verify(chk, "elementwise[%s]" % fname_, modp + ":" + fname_, run_el, post_el, clause="consistency", replay=lambda m: {}, encoding="pointwise (array call against the scalar call on one symbolic entry)", frame=False)
